@@ -103,6 +103,9 @@ LOWERED_ATTRS = {
 }
 
 
+NAME_KEYED = ("attr_dict", "param_dict")
+
+
 def _lowered(py, fn, e: ast.AST, depth=0) -> bool:
     if depth > 6:
         return False
@@ -120,8 +123,27 @@ def _lowered(py, fn, e: ast.AST, depth=0) -> bool:
                     isinstance(n.value, ast.Call) and call_name(n.value) == "_list_of_procedure_attributes":
                 f2 = py.func("sourceform._list_of_procedure_attributes")
                 return "attribute_string = attribute_string.lower()" in ast.unparse(f2)
+    if isinstance(e, ast.Attribute) and e.attr == "attr_dict":
+        # the attribute table holds lower-case text iff every value recorded into it is lower-cased where it is recorded
+        key = "_attr_dict_lowered"
+        if key not in py.__dict__:
+            py.__dict__[key] = True      # guards the recursion
+            res = True
+            sites = 0
+            for _, f2 in py.all_functions():
+                for c in ast.walk(f2):
+                    if isinstance(c, ast.Call) and isinstance(c.func, ast.Attribute) and c.func.attr in ("append", "extend") and \
+                            isinstance(c.func.value, ast.Subscript) and ast.unparse(c.func.value.value).endswith("attr_dict") and c.args:
+                        sites += 1
+                        v = c.args[0]
+                        parts = [v.left, v.right] if isinstance(v, ast.BinOp) and isinstance(v.op, ast.Add) else [v]
+                        res = res and all(_lowered(py, py.enclosing_function(c), x, 0) for x in parts)
+            py.__dict__[key] = res and sites > 0
+        return py.__dict__[key]
     if isinstance(e, ast.Subscript):
         return _lowered(py, fn, e.value, depth + 1)
+    if isinstance(e, ast.Call) and isinstance(e.func, ast.Attribute) and e.func.attr in ("items", "values", "pop", "copy"):
+        return _lowered(py, fn, e.func.value, depth + 1)
     if isinstance(e, ast.Call) and isinstance(e.func, ast.Attribute) and e.func.attr in (
             "strip", "replace", "split", "rstrip", "lstrip", "group", "get"):
         return _lowered(py, fn, e.func.value, depth + 1)
@@ -137,6 +159,9 @@ def _lowered(py, fn, e: ast.AST, depth=0) -> bool:
                 defs.append(n.value)
             elif isinstance(n, (ast.For, ast.comprehension)) and isinstance(n.target, ast.Name) and n.target.id == e.id:
                 defs.append(n.iter)
+            elif isinstance(n, (ast.For, ast.comprehension)) and isinstance(n.target, ast.Tuple) and any(
+                    isinstance(x, ast.Name) and x.id == e.id for x in n.target.elts):
+                defs.append(n.iter)      # `for k, v in d.items()`: as lowered as d is
         if e.id == "line_lower":
             return True
         if defs:
@@ -187,6 +212,30 @@ def r2_lower_discipline(ctx, rep):
                    py.nloc(c))
     if n < 25:
         raise AnalysisError(f"only {n} keyword comparisons found")
+    # name-keyed tables filled with lower-cased names: every lookup key is lower-cased too
+    m = 0
+    for mod, fn in py.all_functions():
+        if mod != "sourceform":
+            continue
+        for c in ast.walk(fn):
+            key = None
+            if isinstance(c, ast.Subscript) and isinstance(c.value, ast.Attribute) and c.value.attr in NAME_KEYED and \
+                    not isinstance(c.slice, ast.Slice):
+                key, tbl = c.slice, c.value.attr
+            elif isinstance(c, ast.Call) and isinstance(c.func, ast.Attribute) and c.func.attr in ("get", "pop", "setdefault") and \
+                    isinstance(c.func.value, ast.Attribute) and c.func.value.attr in NAME_KEYED and c.args:
+                key, tbl = c.args[0], c.func.value.attr
+            if key is None or py.enclosing_function(c) is not fn:
+                continue
+            m += 1
+            ok = _lowered(py, fn, key)
+            rep.ob(f"{py.qualname(fn)}: key of {tbl}[{ast.unparse(key)[:40]}]", ok,
+                   "the table is keyed by lower-cased names and the key is lower-cased" if ok else
+                   f"`{ast.unparse(key)}` keeps the spelling of the source while {tbl} is filled with lower-cased names: an "
+                   f"attribute/access statement that spells the entity differently from its declaration is not applied",
+                   py.nloc(c), nontrivial=False)
+    if m < 6:
+        raise AnalysisError(f"only {m} lookups in the name-keyed attribute tables found")
 
 
 FULL_MATCH_ARMS = {"NAMELIST_RE"}
